@@ -15,6 +15,7 @@ import itertools
 import json
 import os
 import re
+import time
 import warnings
 
 from harness import fw
@@ -260,12 +261,16 @@ def dec_value(v):
         return None
     if "bytes" in v:
         return bytes.fromhex(v["bytes"])
+    if "bytearray" in v:
+        return bytearray.fromhex(v["bytearray"])
     return "".join(chr(c) for c in v["text"])
 
 
 def enc_value(x):
     if x is None:
         return None
+    if isinstance(x, bytearray):
+        return {"bytearray": bytes(x).hex()}
     if isinstance(x, bytes):
         return {"bytes": x.hex()}
     return {"text": [ord(c) for c in x]}
@@ -277,18 +282,42 @@ def dec_attr(v):
 
 
 def dec_max_age(m):
+    """None | int | ["td", days, seconds, microseconds] | ["str", text] | ["float", x] | ["bool", b]"""
     if m is None or isinstance(m, int):
         return m
-    return datetime.timedelta(days=m[1], seconds=m[2], microseconds=m[3])
+    if m[0] == "td":
+        return datetime.timedelta(days=m[1], seconds=m[2], microseconds=m[3])
+    if m[0] == "bool":
+        return bool(m[1])
+    return m[1]
+
+
+BAD = "not-a-number"
+DEC_INT = re.compile(r"^[+-]?[0-9]+$")
 
 
 def max_age_seconds(m):
+    """The number of seconds the argument asks for: None, an int, or BAD when it is not a number.  A str counts as a
+    number when it is an optionally signed decimal numeral (the lenient spellings int() also takes are: either way)."""
     if m is None:
         return None
+    if isinstance(m, bool):
+        return int(m)
     if isinstance(m, int):
         return m
-    td = dec_max_age(m)
-    return td.days * 86400 + td.seconds
+    if m[0] == "td":
+        td = dec_max_age(m)
+        return td.days * 86400 + td.seconds
+    if m[0] == "bool":
+        return int(bool(m[1]))
+    if m[0] == "float":
+        return int(m[1]) if m[1] == m[1] and abs(m[1]) != float("inf") else BAD
+    if DEC_INT.match(m[1]):
+        return int(m[1])
+    try:
+        return ["lenient", int(m[1])]
+    except ValueError:
+        return BAD
 
 
 RESP_CONFIGS = [None, {"charset": "utf-8"}, {"charset": "latin-1"}, {"charset": "iso-8859-15"}, {"charset": "utf-16"},
@@ -320,26 +349,51 @@ def make_response(cfg):
     return resp
 
 
-def call_api(case):
-    """Run make_cookie / Response.set_cookie on a JSON case.  Returns (line or Err, t0, t1)."""
+def build_call(case):
+    """Positional and keyword arguments of the call a JSON case describes, and the value object passed."""
     name = "".join(chr(c) for c in case["name"])
-    if case.get("name_bytes") and all(c < 128 for c in case["name"]):
-        name = name.encode("ascii")
+    if case.get("name_bytes") and all(c < 256 for c in case["name"]):
+        name = name.encode("latin-1")
     kw = dict(max_age=dec_max_age(case.get("max_age")), path=dec_attr(case.get("path")),
               domain=dec_attr(case.get("domain")), secure=case.get("secure", False),
               httponly=case.get("httponly", False), comment=dec_attr(case.get("comment")),
               samesite=dec_attr(case.get("samesite")))
+    if case.get("defaults"):       # leave out what the case does not mention: the callee's own defaults apply
+        kw = {k: v for k, v in kw.items() if k in case}
     value = dec_value(case.get("value"))
+    args = [name] if (case.get("defaults") and "value" not in case) else [name, value]
+    is_set = case.get("api") in ("set_cookie", "delete_cookie")
+    if case.get("overwrite") is not None and is_set:
+        kw["overwrite"] = case["overwrite"]
+    if case.get("positional") and len(args) == 2:
+        order = ["max_age", "path", "domain", "secure", "httponly", "comment"] + (["overwrite"] if is_set else []) + ["samesite"]
+        full = dict(max_age=None, path="/", domain=None, secure=False, httponly=False, comment=None, overwrite=False, samesite=None)
+        full.update(kw)
+        args += [full[k] for k in order]
+        kw = {}
+    return args, kw, value
+
+
+def call_api(case):
+    """Run make_cookie / Response.set_cookie on a JSON case.  Returns (line or Err, t0, t1)."""
+    args, kw, value = build_call(case)
+    is_set = case.get("api") in ("set_cookie", "delete_cookie")
+    ck = C()
+    old_should_raise = ck._should_raise
     with Validation(case.get("validate", True)), warnings.catch_warnings():
         warnings.simplefilter("ignore")
+        if case.get("warnings") == "error":
+            warnings.simplefilter("error", RuntimeWarning)
+        if case.get("should_raise"):
+            ck._should_raise = True
         t0 = datetime.datetime.utcnow().replace(microsecond=0)
-        if case.get("api") in ("set_cookie", "delete_cookie"):
+        if is_set:
             resp = make_response(case.get("resp"))
             before = list(resp.headerlist)
             if case.get("api") == "delete_cookie":
-                r = catch(resp.delete_cookie, name, path=kw["path"], domain=kw["domain"])
+                r = catch(resp.delete_cookie, args[0], path=kw.get("path"), domain=kw.get("domain"))
             else:
-                r = catch(resp.set_cookie, name, value, **kw)
+                r = catch(resp.set_cookie, *args, **kw)
             if not isinstance(r, Err):
                 added = resp.headerlist[len(before):]
                 if resp.headerlist[:len(before)] != before or len(added) != 1 or added[0][0] != "Set-Cookie":
@@ -347,8 +401,11 @@ def call_api(case):
                 else:
                     r = added[0][1]
         else:
-            r = catch(C().make_cookie, name, value, **kw)
+            r = catch(ck.make_cookie, *args, **kw)
         t1 = datetime.datetime.utcnow()
+        ck._should_raise = old_should_raise
+    if isinstance(value, bytearray) and value != dec_value(case.get("value")):
+        r = Err("caller-bytearray-mutated")
     return r, t0, t1
 
 
@@ -461,7 +518,20 @@ def oracle(case):
     if api == "delete_cookie":
         value = None
     validate = case.get("validate", True)
-    line, t0, t1 = call_api(case)
+    called = case                                            # the call is made with what the case mentions only
+    if case.get("defaults"):
+        case = dict(case)
+        if "path" not in case and api != "delete_cookie":
+            case["path"] = {"bytes": "2f"}                   # the documented default path "/"
+        if "value" not in case and api == "set_cookie":
+            case["value"] = {"text": []}                     # the documented default value ""
+            value = ""
+    if isinstance(value, bytearray):
+        value = bytes(value)
+    line, t0, t1 = call_api(called)
+    secure = bool(case.get("secure"))
+    httponly = bool(case.get("httponly"))
+    secs_arg = max_age_seconds(case.get("max_age"))
 
     # ---- what the statement demands of this request
     name_octets = None
@@ -479,8 +549,10 @@ def oracle(case):
         must_raise = "name %r is not a token" % name
     elif isinstance(ss, bytes) and validate and ss.lower() not in (b"strict", b"lax", b"none"):
         must_raise = "SameSite=%r with validation on" % ss
-    elif isinstance(ss, bytes) and ss.lower() == b"none" and not case.get("secure"):
+    elif isinstance(ss, bytes) and ss.lower() == b"none" and not secure:
         must_raise = "SameSite=None without Secure"
+    elif secs_arg == BAD and value is not None:
+        must_raise = "max_age=%r is not a number" % (case.get("max_age"),)
     if any(isinstance(v, Err) for v in attrs_in.values()):
         may_raise = True                     # not latin-1: nothing can be emitted
     if isinstance(value, str):
@@ -493,6 +565,18 @@ def oracle(case):
             may_raise = True                 # lone surrogates: no octets to emit
     else:
         vbytes = b"" if value is None else value
+    if isinstance(secs_arg, list):
+        may_raise = True                     # a spelling only int() understands ('1_0', ' 5 '): refused or taken, either way
+        secs_arg = secs_arg[1]
+    if isinstance(secs_arg, int) and abs(secs_arg) > 10 ** 10 and value is not None:
+        may_raise = True                     # now+max_age is outside datetime's range: OverflowError, nothing emitted
+    if case.get("should_raise") or case.get("warnings") == "error":
+        # the "future versions will raise" switch / warnings turned into errors: a value or comment that needs
+        # quoting may be refused (ValueError / RuntimeWarning) instead of being quoted
+        needs_quote = lambda b: isinstance(b, bytes) and any(c in DELIMS for c in b)   # noqa
+        if needs_quote(value if isinstance(value, bytes) else (value or "").encode("utf-8", "replace")) or \
+                needs_quote(attrs_in["comment"]):
+            may_raise = True
     if isinstance(ss, bytes) and not validate and not all(c in RFC_TOKEN for c in ss):
         may_raise = True                     # free-form SameSite with validation off is outside the statement
         if not isinstance(line, Err):
@@ -527,7 +611,7 @@ def oracle(case):
         return "value-changed", "%s(%s): value %r (utf-8 octets %r) emitted as %r which denotes %r" % (
             api, "response configuration %r" % (case.get("resp"),) if api != "make_cookie" else "", value, vbytes, rraw, got)
     deleting = value is None
-    secs = 0 if deleting else max_age_seconds(case.get("max_age"))
+    secs = 0 if deleting else secs_arg
     want = {}
     for k, label in (("comment", "Comment"), ("domain", "Domain"), ("path", "Path")):
         if attrs_in[k]:
@@ -535,9 +619,9 @@ def oracle(case):
     if secs is not None:
         want["Max-Age"] = str(secs).encode()
         want["expires"] = True
-    if case.get("secure"):
+    if secure:
         want["secure"] = None
-    if case.get("httponly"):
+    if httponly:
         want["HttpOnly"] = None
     if ss:
         want["SameSite"] = ss
@@ -579,6 +663,9 @@ def oracle(case):
     jar = ck.Cookie(line)
     m = jar.get(name_octets)
     if m is None:
+        if refused_token:
+            return ("emitted-instead-of-raising:name", "%s: name %r is one webob's own parser refuses ('$' prefix / attribute "
+                    "name), but %r was emitted and Cookie() reads back %r" % (api, name, line, list(jar.keys())))
         return "webob-parser-loses-cookie", "Cookie(%r) holds %r" % (line, list(jar.keys()))
     checks = [("value", rraw, True, m.value, vbytes)]
     for k, label in ((b"comment", "Comment"), (b"domain", "Domain"), (b"path", "Path"), (b"max-age", "Max-Age"),
@@ -716,7 +803,11 @@ def r_max_age(rng):
         return None
     if x < 0.75:
         return rng.choice([0, 1, 5, 60, 3600, 86400, 31536000, -1, -86400, 10 ** 9, rng.randrange(-10 ** 6, 10 ** 7)])
-    return ["td", rng.choice([0, 0, 1, 30, -1, 365]), rng.choice([0, 1, 59, 86399]), rng.choice([0, 0, 999999])]
+    if x < 0.9:
+        return ["td", rng.choice([0, 0, 1, 30, -1, 365]), rng.choice([0, 1, 59, 86399]), rng.choice([0, 0, 999999])]
+    return rng.choice([["str", "0"], ["str", "5"], ["str", "3600"], ["str", "-1"], ["str", "+7"], ["str", "abc"], ["str", ""],
+                       ["str", "5.5"], ["str", "1e3"], ["str", " 5 "], ["str", "1_0"], ["float", 5.0], ["float", 5.9],
+                       ["float", -0.5], ["bool", True], ["bool", False]])
 
 
 def r_case(rng, api=None, malformed=False):
@@ -732,6 +823,8 @@ def r_case(rng, api=None, malformed=False):
         case["value"] = None
     elif y < 0.6:
         case["value"] = enc_value(r_bytes(rng))
+        if rng.random() < 0.1:
+            case["value"] = {"bytearray": case["value"]["bytes"]}
     else:
         t = r_text(rng)
         if case["api"] == "make_cookie" and rng.random() < 0.7:
@@ -744,8 +837,17 @@ def r_case(rng, api=None, malformed=False):
     case["path"] = enc_value(b"/") if rng.random() < 0.3 else r_attr(rng)
     case["domain"] = r_attr(rng) if rng.random() < 0.5 else None
     case["comment"] = r_attr(rng) if rng.random() < 0.5 else None
-    case["secure"] = rng.random() < 0.5
-    case["httponly"] = rng.random() < 0.5
+    truthy = [True, True, True, 1, "yes", [0], 2.5]
+    falsy = [False, False, False, 0, "", [], None]
+    case["secure"] = rng.choice(truthy if rng.random() < 0.5 else falsy)
+    case["httponly"] = rng.choice(truthy if rng.random() < 0.5 else falsy)
+    if rng.random() < 0.15:
+        case["positional"] = True
+    if rng.random() < 0.15:
+        case["defaults"] = True
+        for k in ("path", "domain", "comment", "samesite", "max_age"):
+            if rng.random() < 0.5:
+                case.pop(k, None)
     z = rng.random()
     if z < 0.4:
         case["samesite"] = None
@@ -804,9 +906,16 @@ def c_optstr(v):
 
 
 def c_request(case, date):
+    if case.get("defaults"):
+        case = dict(case)
+        case.setdefault("path", {"bytes": "2f"})
+        if "value" not in case:
+            case["value"] = {"text": []}
     v = case.get("value")
     if v is None:
         cv = "CNone"
+    elif "bytearray" in v:
+        cv = "(CBytes %s)" % cstr(bytes.fromhex(v["bytearray"]))
     elif "bytes" in v:
         cv = "(CBytes %s)" % cstr(bytes.fromhex(v["bytes"]))
     else:
@@ -815,14 +924,19 @@ def c_request(case, date):
     if m is None:
         cm = "MaNone"
     elif isinstance(m, int):
-        cm = "(MaInt %s)" % cZ(m)
-    else:
+        cm = "(MaInt %s)" % cZ(int(m))
+    elif m[0] == "td":
         td = dec_max_age(m)
         cm = "(MaDelta %s %s)" % (cZ(td.days), cZ(td.seconds))
+    else:                      # str / float / bool: what int() makes of it (CPython's int() is not modelled)
+        try:
+            cm = "(MaInt %s)" % cZ(int(dec_max_age(m)))
+        except ValueError:
+            cm = "MaBad"
     return ("{| r_name := %s; r_value := %s; r_max_age := %s; r_path := %s; r_domain := %s; r_secure := %s; "
             "r_httponly := %s; r_comment := %s; r_samesite := %s; r_date := %s |}" % (
                 cstr("".join(chr(c) for c in case["name"])), cv, cm, c_optstr(case.get("path")), c_optstr(case.get("domain")),
-                cbool(case.get("secure")), cbool(case.get("httponly")), c_optstr(case.get("comment")),
+                cbool(bool(case.get("secure"))), cbool(bool(case.get("httponly"))), c_optstr(case.get("comment")),
                 c_optstr(case.get("samesite")), cstr(date)))
 
 
@@ -833,7 +947,31 @@ def split_date(line):
 
 
 # =========================================================================== the check
+OPT_CODE = ("import json,sys,warnings; warnings.simplefilter('ignore'); from harness.props import c07; "
+            "cases=json.load(sys.stdin); out=[]\n"
+            "for i,c in enumerate(cases):\n"
+            "    r=c07.oracle_any(dict(c, optimize=False))\n"
+            "    if r: out.append([i, r[0], r[1]])\n"
+            "json.dump(out, sys.stdout)")
+
+
+def run_under_optimize(cases):
+    """Evaluate the oracle on `cases` in an interpreter started with -O (assert statements are compiled away there: a
+    check written as an assert is a configuration-dependent check).  Returns [(index, key, message)]."""
+    import subprocess
+    import sys
+    p = subprocess.run([sys.executable, "-O", "-B", "-c", OPT_CODE], input=json.dumps(fw.jsonable(cases)), capture_output=True,
+                       text=True, cwd=fw.ROOT)
+    if p.returncode != 0:
+        return [(0, "python-O:harness-error", (p.stderr or p.stdout)[-400:])]
+    return [(i, "python-O:" + k, "under python -O: " + m) for i, k, m in json.loads(p.stdout)]
+
+
 def oracle_any(case):
+    import sys
+    if case.get("optimize") and not sys.flags.optimize:
+        res = run_under_optimize([case])
+        return (res[0][1], res[0][2]) if res else None
     return oracle_history(case) if "kind" in case else oracle(case)
 
 
@@ -1013,6 +1151,8 @@ def run(ctx):
             c = r_case(rng, api=api, malformed=(i % 3 == 0))
             if any(isinstance(latin(dec_attr(c.get(k))), Err) for k in ("path", "domain", "comment", "samesite")):
                 continue
+            if c.get("name_bytes") and any(x > 127 for x in c["name"]):
+                continue      # a bytes name with high octets: the model's name is a str (oracle only: it must raise)
             r, _, _ = call_api(c)
             date = split_date(r) if isinstance(r, str) else ""
             if date:
@@ -1081,6 +1221,7 @@ class Tally:
 
     def __init__(self, ctx, name):
         self.ctx, self.name = ctx, name
+        self.t0 = time.time()
         self.n = 0
         self.seen = set()
         self.nontrivial = 0
@@ -1098,6 +1239,7 @@ class Tally:
 
     def done(self):
         self.ctx.oracle_count(self.name, self.n, self.nontrivial)
+        self.ctx.oracle_stats[self.name]["wall_s"] = round(time.time() - self.t0, 1)
 
 
 def run_oracle(ctx):
@@ -1176,6 +1318,85 @@ def run_oracle(ctx):
         t.check({"api": "delete_cookie", "resp": cfg, "name": [110], "value": None, "path": enc_value(b"/a b"),
                  "domain": enc_value(b"e.example"), "validate": True})
     t.done()
+    # (5c) argument shapes and knobs: every optional argument present/absent, positional/keyword, str/bytes/bytearray,
+    #      max_age int/timedelta/str/float/bool/None, truthy and falsy non-bool flags, SameSite spellings, the private
+    #      "_should_raise" switch and warnings turned into errors
+    t = Tally(ctx, "argument-shapes")
+    max_ages = [None, 0, 5, -5, True, ["td", 0, 5, 0], ["td", 1, 0, 999999], ["str", "5"], ["str", "-5"], ["str", "+5"], ["str", "05"],
+                ["str", "abc"], ["str", ""], ["str", "5.5"], ["str", "1e3"], ["str", " 5 "], ["str", "1_0"], ["str", "\u0665"],
+                ["float", 5.0], ["float", 5.9], ["float", -0.5], ["bool", True], ["bool", False], 10 ** 12, -10 ** 12, 10 ** 20,
+                ["td", 999999999, 0, 0], ["td", -999999999, 0, 0]]
+    for api in ("make_cookie", "set_cookie"):
+        for ma in max_ages:
+            for value in (enc_value(b"v"), None, enc_value("x y")):
+                for extra in ({}, {"positional": True}, {"defaults": True}):
+                    t.check(dict({"api": api, "name": [110], "value": value, "max_age": ma, "validate": True, "path": enc_value(b"/p")},
+                                 **extra))
+        for flag in (True, False, 1, 0, 2, "yes", "", "0", [0], [], None, 0.0, 0.1):
+            for other in (False, True):
+                for ss in (None, b"None", "Lax", "STRICT", b"lax"):
+                    for extra in ({}, {"positional": True}):
+                        t.check(dict({"api": api, "name": [110], "value": enc_value(b"v"), "validate": True, "path": None,
+                                      "secure": flag, "httponly": other, "samesite": enc_value(ss)}, **extra))
+                        t.check(dict({"api": api, "name": [110], "value": enc_value(b"v"), "validate": True, "path": None,
+                                      "secure": other, "httponly": flag, "samesite": enc_value(ss)}, **extra))
+        # every optional argument absent / present, callee defaults in force
+        opt = {"max_age": 7, "path": enc_value("/a b"), "domain": enc_value(b"d.example"), "secure": True, "httponly": 1,
+               "comment": enc_value("c;d"), "samesite": enc_value("Strict")}
+        keys = sorted(opt)
+        for mask in range(1 << len(keys)):
+            c = {"api": api, "name": [115], "value": enc_value("v\u00e9" if api == "set_cookie" else "v"), "validate": True, "defaults": True}
+            for i, k in enumerate(keys):
+                if mask >> i & 1:
+                    c[k] = opt[k]
+            t.check(c)
+            if mask % 8 == 0:
+                t.check(dict(c, positional=True))
+        t.check({"api": "set_cookie", "name": [115], "defaults": True, "validate": True})          # value left out: ""
+        for v in (b"a b", b"\xff;", b"plain", b""):
+            t.check({"api": api, "name": [110], "value": {"bytearray": v.hex()}, "validate": True, "path": None})
+            for knob in ({"should_raise": True}, {"warnings": "error"}):
+                t.check(dict({"api": api, "name": [110], "value": enc_value(v), "validate": True, "comment": enc_value(b"c d")}, **knob))
+                t.check(dict({"api": api, "name": [110], "value": enc_value(v), "validate": True, "comment": enc_value(b"cd")}, **knob))
+        # names as bytes, every octet
+        for i in range(256):
+            for nm in ([i], [97, i], [i, 97]):
+                t.check({"api": api, "name": nm, "name_bytes": True, "value": enc_value(b"v"), "validate": True, "path": None})
+    t.done()
+    # (5d) OUTSIDE the model's domain (the model takes octets; a str value for make_cookie must be ASCII; header text is
+    #      latin-1): nothing may be emitted that breaks the statement, and only the documented refusals may be raised
+    t = Tally(ctx, "outside-domain")
+    wide = [[0x20ac], [47, 0x100], [0x1f600], [0xd800], [97, 0x2028]]
+    for api in ("make_cookie", "set_cookie"):
+        for attr in ("path", "domain", "comment", "samesite"):
+            for w in wide:
+                t.check({"api": api, "name": [110], "value": enc_value(b"v"), "validate": attr != "samesite" or w == wide[0],
+                         "path": None, attr: {"text": w}})
+        for w in wide + [[233], [0x80]]:
+            t.check({"api": api, "name": [110], "value": {"text": w}, "validate": True, "path": None})
+            t.check({"api": api, "name": w, "value": enc_value(b"v"), "validate": True, "path": None})
+    res = oracle_foreign_types()
+    if res:
+        fail_case(ctx, res, {"kind": "foreign-types"}, "outside-domain")
+    t.n += 1
+    t.done()
+    # (5e) the interpreter flag: the same refusals must hold under python -O (no reliance on assert)
+    cases = []
+    for api in ("make_cookie", "set_cookie"):
+        for nm in BAD_NAMES + REFUSED_TOKENS + TOKEN_NAMES:
+            cases.append({"api": api, "name": [ord(x) for x in nm], "value": enc_value(b"v"), "validate": True, "optimize": True})
+        for i in list(range(0, 256, 1)):
+            cases.append({"api": api, "name": [97, i, 98], "value": enc_value(b"v"), "validate": True, "path": None, "optimize": True})
+        for ss, sec, val in ((b"None", False, True), (b"bogus", True, True), (b"None", False, False), (b"Lax", False, True)):
+            cases.append({"api": api, "name": [110], "value": enc_value(b"a b"), "validate": val, "samesite": enc_value(ss), "secure": sec,
+                          "max_age": 5, "optimize": True})
+        cases.append({"api": api, "name": [110], "value": enc_value(b"v"), "validate": True, "max_age": ["str", "abc"], "optimize": True})
+    t0 = time.time()
+    bad = run_under_optimize(cases)
+    for i, key, msg in bad:
+        fail_case(ctx, (key, msg), cases[i], "python-O")
+    ctx.oracle_count("python-O", len(cases), len(cases))
+    ctx.oracle_stats["python-O"]["wall_s"] = round(time.time() - t0, 1)
     # (6) longer byte values
     t = Tally(ctx, "values-longer")
     for i in range(ctx.scale(4000, 80000)):
@@ -1233,15 +1454,11 @@ def hist_response(case):
     for i, c in enumerate(case["calls"]):
         c = dict(c, api="set_cookie", resp=None)     # the reference is a default Response: the configuration must not matter
         fresh, _, _ = call_api(c)
-        name = "".join(chr(x) for x in c["name"])
-        value = dec_value(c.get("value"))
-        kw = dict(max_age=dec_max_age(c.get("max_age")), path=dec_attr(c.get("path")), domain=dec_attr(c.get("domain")),
-                  secure=c.get("secure", False), httponly=c.get("httponly", False), comment=dec_attr(c.get("comment")),
-                  samesite=dec_attr(c.get("samesite")))
+        args, kw, value = build_call(c)
         kw_before = dict(kw)
         with Validation(c.get("validate", True)), warnings.catch_warnings():
             warnings.simplefilter("ignore")
-            r = catch(resp.set_cookie, name, value, **kw)
+            r = catch(resp.set_cookie, *args, **kw)
         if kw != kw_before:
             return "argument-mutated", "set_cookie changed its keyword arguments: %r -> %r" % (kw_before, kw)
         if isinstance(fresh, Err) != isinstance(r, Err) or (isinstance(r, Err) and r != fresh):
@@ -1351,7 +1568,109 @@ def hist_environ(case):
     return None
 
 
-HISTORY_KINDS = {"calls": hist_calls, "response": hist_response, "jar": hist_jar, "morsel": hist_morsel, "environ": hist_environ}
+def first_name(line):
+    return line.split("=", 1)[0]
+
+
+def hist_overwrite(case):
+    """set_cookie(..., overwrite=True) on a Response that already carries cookies (of the same and of other names,
+    with flags): the new line is the one a fresh Response emits and is last, no other line of that name remains, the
+    lines of other names are untouched and keep their order."""
+    resp = make_response(case.get("resp"))
+    for c in case["pre"]:
+        r, _, _ = None, None, None
+        args, kw, _v = build_call(dict(c, api="set_cookie"))
+        with Validation(c.get("validate", True)), warnings.catch_warnings():
+            warnings.simplefilter("ignore")
+            catch(resp.set_cookie, *args, **kw)
+    before = [canon_result(v) for k, v in resp.headerlist if k == "Set-Cookie"]
+    others_hdrs = [(k, v) for k, v in resp.headerlist if k != "Set-Cookie"]
+    c = dict(case["call"], api="set_cookie")
+    fresh, _, _ = call_api(dict(c, overwrite=None, resp=None))
+    args, kw, _v = build_call(c)
+    with Validation(c.get("validate", True)), warnings.catch_warnings():
+        warnings.simplefilter("ignore")
+        r = catch(resp.set_cookie, *args, **kw)
+    after = [canon_result(v) for k, v in resp.headerlist if k == "Set-Cookie"]
+    name = "".join(chr(x) for x in c["name"])
+    if isinstance(fresh, Err):
+        if not isinstance(r, Err):
+            return "overwrite:emitted-where-fresh-raises", "set_cookie(%r, overwrite=%r) emitted %r, a fresh call raises %s" % (c, c.get("overwrite"), after, fresh.name)
+        return None
+    if isinstance(r, Err):
+        return "overwrite:spurious-raise:" + r.name, "set_cookie(%r) with overwrite=%r on a Response carrying %r raises %s" % (c, c.get("overwrite"), before, r.name)
+    if [(k, v) for k, v in resp.headerlist if k != "Set-Cookie"] != others_hdrs:
+        return "overwrite:other-headers", "set_cookie with overwrite changed headers other than Set-Cookie"
+    keep = [l for l in before if first_name(l) != name] if c.get("overwrite") else before
+    want = keep + [canon_result(fresh)]
+    if after != want:
+        return "overwrite:set-cookie-lines", "Response carrying %r, then set_cookie(%r, overwrite=%r): now %r, expected %r" % (
+            before, c, c.get("overwrite"), after, want)
+    return None
+
+
+def oracle_foreign_types(case=None):
+    """Value domains nobody promises anything about (value/name of a foreign type, a Cookie header that is not latin-1,
+    Morsel.expires in all its accepted shapes): the only demand is that nothing unsafe is emitted - either a documented
+    kind of exception, or a line that satisfies the statement."""
+    from webob import Request, Response
+    ck = C()
+    with warnings.catch_warnings():
+        warnings.simplefilter("ignore")
+        for v in (5, 5.5, ["a"], {"a": 1}, object(), memoryview(b"a;b")):
+            for f in (lambda: ck.make_cookie("n", v), lambda: Response().set_cookie("n", v)):
+                r = catch(f)
+                if not isinstance(r, Err) and r is not None:
+                    if any(not (32 <= ord(c) <= 126) for c in r) or isinstance(ref_split(r), str):
+                        return "foreign-type:unsafe-line", "value %r of type %s emitted as %r" % (v, type(v).__name__, r)
+        for nm in (5, None, ["n"], b"", ""):
+            r = catch(ck.make_cookie, nm, "v")
+            if not isinstance(r, Err):
+                return "foreign-type:name-emitted", "name %r emitted as %r" % (nm, r)
+        for h in ("n=\u20ac", "\u0100=1", "a=1; b=\U0001f600"):
+            r = catch(lambda: dict(Request({"HTTP_COOKIE": h}).cookies))
+            if r != Err("UnicodeEncodeError"):
+                return "foreign-type:non-latin1-header", "request.cookies on the non-latin-1 header %r gives %r" % (h, r)
+        r = catch(lambda: dict(Request({}).cookies))
+        if r != {}:
+            return "foreign-type:no-header", "request.cookies without HTTP_COOKIE gives %r" % (r,)
+        # Morsel.expires: None / bytes / str / int / timedelta / datetime / date
+        now = datetime.datetime.utcnow().replace(microsecond=0)
+        shapes = [None, DELETE_DATE.encode(), DELETE_DATE, 0, 3600, -5, datetime.timedelta(days=1, seconds=5), now + datetime.timedelta(days=400),
+                  datetime.date(2031, 2, 3), datetime.datetime(1999, 12, 31, 23, 59, 59)]
+        for e in shapes:
+            m = ck.Morsel(b"n", b"v")
+            r = catch(setattr, m, "expires", e)
+            line = catch(m.serialize) if not isinstance(r, Err) else r
+            if isinstance(line, Err):
+                return "morsel-expires:raises", "Morsel.expires = %r: %s" % (e, line.name)
+            if e is None:
+                if line != "n=v":
+                    return "morsel-expires:none", "Morsel.expires = None serialises as %r" % line
+                continue
+            sp = ref_split(line)
+            if isinstance(sp, str) or sp[0] != "n" or len(sp[2]) != 1 or sp[2][0][0] != "expires":
+                return "morsel-expires:line", "Morsel.expires = %r serialises as %r" % (e, line)
+            text = sp[2][0][1]
+            if isinstance(e, (bytes, str)):
+                ok = text == DELETE_DATE
+            else:
+                mm = DATE_RX.match(text)
+                ok = bool(mm)
+                if ok and isinstance(e, (int, datetime.timedelta)):
+                    secs = e if isinstance(e, int) else e.days * 86400 + e.seconds
+                    ok = check_date(text, secs, now, datetime.datetime.utcnow(), False) is None
+                elif ok and isinstance(e, datetime.datetime):
+                    ok = check_date(text, 0, e, e, False) is None
+                elif ok:
+                    ok = check_date(text, 0, datetime.datetime(e.year, e.month, e.day), datetime.datetime(e.year, e.month, e.day), False) is None
+            jar = ck.Cookie(line)
+            if not ok or list(jar.keys()) != [b"n"] or jar[b"n"][b"expires"] != text.encode("ascii"):
+                return "morsel-expires:date", "Morsel.expires = %r serialises as %r (read back %r)" % (e, line, dict(jar.get(b"n") or {}).get(b"expires"))
+    return None
+
+
+HISTORY_KINDS = {"foreign-types": oracle_foreign_types, "overwrite": hist_overwrite, "calls": hist_calls, "response": hist_response, "jar": hist_jar, "morsel": hist_morsel, "environ": hist_environ}
 
 
 def oracle_history(case):
@@ -1400,6 +1719,19 @@ def r_history(rng, kind):
             for c in calls:
                 c.pop("resp", None)
         return h
+    if kind == "overwrite":
+        pre = []
+        names = rng.sample(TOKEN_NAMES[:5], 3)
+        for _ in range(rng.randrange(0, 5)):
+            c = r_case(rng, api="set_cookie")
+            c["name"] = [ord(x) for x in rng.choice(names)]
+            c.pop("resp", None)
+            pre.append(c)
+        call = r_case(rng, api="set_cookie")
+        call["name"] = [ord(x) for x in rng.choice(names)]
+        call.pop("resp", None)
+        call["overwrite"] = rng.choice([True, True, True, False, 1, 0])
+        return {"kind": "overwrite", "pre": pre, "call": call, "resp": rng.choice(RESP_CONFIGS)}
     if kind == "jar":
         hs = []
         for _ in range(n):
@@ -1442,9 +1774,9 @@ def r_history(rng, kind):
 
 
 def run_histories(ctx):
-    for kind in ("calls", "response", "jar", "morsel", "environ"):
+    for kind in ("calls", "response", "overwrite", "jar", "morsel", "environ"):
         rng = ctx.sub_rng("history-" + kind)
-        n = ctx.scale(150 if kind in ("calls", "response") else 250, 3000)
+        n = ctx.scale(150 if kind in ("calls", "response", "overwrite") else 250, 3000)
         seen = set()
         fails = 0
         for _ in range(n):
@@ -1490,7 +1822,7 @@ def replay(ctx, path):
     data = json.load(open(path))
     case = data["case"]
     if isinstance(case, dict) and ("name" in case or "kind" in case):
-        res = oracle_history(case) if "kind" in case else oracle(case)
+        res = oracle_any(case)
         if res:
             print("VIOLATION property=C07 replay=%s" % path)
             print("  (%s) %s" % res)
